@@ -120,6 +120,7 @@ Inductive value :=
 | WithUnit (v : value) (to : tag)
 | Distribution (elem : tag) (vs : list value)   (* Distribution<V>: elem = V::Unit *)
 | MeanOf (u : tag) (total : f64) (occ : N)      (* Mean<U> *)
+| MeanSeq (u : tag) (vs : list value)           (* Mean::<U>::default() fed by one record_value(&v) per element *)
 | Opt (elem : tag) (o : option value).          (* Option<V>: elem = V::Unit *)
 
 (* V::Unit *)
@@ -133,8 +134,45 @@ Definition declared (v : value) : tag :=
   | WithUnit _ to => to
   | Distribution e _ => e
   | MeanOf u _ _ => u
+  | MeanSeq u _ => u
   | Opt e _ => e
   end.
+
+(* Mean<U>::record_value (distribution.rs): the closure handed to the Collector adds every observation of an
+   accepted call to (total, occurrences) *in place*; a rejected call (string, error, another unit than U::UNIT,
+   dimensions) must not reach the closure at all. *)
+Definition mean_acc := (f64 * N)%type.
+Definition f64_pzero : f64 := Binary.B754_zero 53 1024 false.
+Definition mean_zero : mean_acc := (f64_pzero, 0).                 (* Mean::default(): total 0.0, occurrences 0 *)
+Definition mean_add_obs (acc : mean_acc) (o : obs) : mean_acc :=
+  match o with
+  | OUnsigned u => (f64_add (fst acc) (u64_as_f64 u), snd acc + 1)   (* total += u as f64; occurrences += 1 *)
+  | OFloat f => (f64_add (fst acc) f, snd acc + 1)
+  | ORepeated t n => (f64_add (fst acc) t, snd acc + n)
+  end.
+(* one record_value call on the call the value makes: (new accumulator, Ok = [] / Err = its messages) *)
+Definition record_call (expected : unit_) (acc : mean_acc) (c : vcall) : mean_acc * list str :=
+  match c with
+  | VNone => (acc, [])
+  | VString _ => (acc, [msg_dist_of_strings])
+  | VError e => (acc, e)
+  | VMetric os u dims _ =>
+      if negb (unit_eqb u expected) then (acc, [msg_wrong_unit expected u])
+      else match dims with
+           | _ :: _ => (acc, [msg_dist_dims])
+           | [] => (fold_left mean_add_obs os acc, [])
+           end
+  end.
+(* the accumulator after a sequence of calls, and the per-call results *)
+Definition mean_run_calls (expected : unit_) (cs : list vcall) : mean_acc :=
+  fold_left (fun acc c => fst (record_call expected acc c)) cs mean_zero.
+Fixpoint mean_results_calls (expected : unit_) (acc : mean_acc) (cs : list vcall) : list (list str) :=
+  match cs with
+  | [] => []
+  | c :: r => let rc := record_call expected acc c in snd rc :: mean_results_calls expected (fst rc) r
+  end.
+Definition mean_write (u : unit_) (acc : mean_acc) : vcall :=
+  if N.eqb (snd acc) 0 then VNone else VMetric [ORepeated (fst acc) (snd acc)] u [] None.
 
 Fixpoint write (v : value) : vcall :=
   match v with
@@ -154,6 +192,7 @@ Fixpoint write (v : value) : vcall :=
         end
       end
   | MeanOf u t n => if N.eqb n 0 then VNone else VMetric [ORepeated t n] (tag_unit u) [] None
+  | MeanSeq u vs => mean_write (tag_unit u) (mean_run_calls (tag_unit u) (map write vs))
   | Opt _ None => VNone
   | Opt _ (Some v) => write v
   end.
@@ -164,5 +203,10 @@ Fixpoint well_typed (v : value) : bool :=
   | WithUnit v to => well_typed v && convertible (declared v) to
   | Distribution e vs => forallb (fun x => well_typed x && tag_eqb (declared x) e) vs
   | Opt e (Some v) => well_typed v && tag_eqb (declared v) e
+  | MeanSeq _ vs => forallb well_typed vs           (* record_value takes any Value, whatever unit it promises *)
   | _ => true
   end.
+
+(* the Ok / Err(messages) results of the record_value calls of a MeanSeq *)
+Definition mean_results (u : tag) (vs : list value) : list (list str) :=
+  mean_results_calls (tag_unit u) mean_zero (map write vs).
